@@ -47,6 +47,9 @@ type vSpec struct {
 	Sel     string   `json:"sel"`
 	ReqIPs  []int    `json:"reqIPs"`
 	ReqPool string   `json:"reqPool"`
+	Dep     bool     `json:"dep"`
+	Legacy  string   `json:"legacy"`
+	Bad     bool     `json:"bad"`
 }
 
 type vAct struct {
@@ -117,20 +120,30 @@ func vMakeService(s string, raw json.RawMessage) *v1.Service {
 		svc.Spec.Selector = map[string]string{"app": sp.Sel}
 	}
 	ann := map[string]string{}
-	if sp.Share != "" {
-		ann[AnnotationAllowSharedIP] = sp.Share
+	kShare, kIPs, kPool := AnnotationAllowSharedIP, AnnotationLoadBalancerIPs, AnnotationAddressPool
+	if sp.Dep {
+		kShare, kIPs, kPool = DeprecatedAnnotationAllowSharedIP, DeprecatedAnnotationLoadBalancerIPs, DeprecatedAnnotationAddressPool
 	}
-	if len(sp.ReqIPs) == 1 {
+	if sp.Share != "" {
+		ann[kShare] = sp.Share
+	}
+	if len(sp.ReqIPs) == 1 && !sp.Dep {
 		svc.Spec.LoadBalancerIP = kit.IP(sp.ReqIPs[0]).String()
-	} else if len(sp.ReqIPs) > 1 {
+	} else if len(sp.ReqIPs) >= 1 {
 		var l []string
 		for _, a := range sp.ReqIPs {
 			l = append(l, kit.IP(a).String())
 		}
-		ann[AnnotationLoadBalancerIPs] = strings.Join(l, ",")
+		ann[kIPs] = strings.Join(l, ",")
 	}
 	if sp.ReqPool != "" {
-		ann[AnnotationAddressPool] = sp.ReqPool
+		ann[kPool] = sp.ReqPool
+	}
+	if sp.Legacy != "" {
+		ann[DeprecatedAnnotationIPAllocateFromPool] = sp.Legacy
+	}
+	if sp.Bad {
+		svc.Spec.LoadBalancerIP = "192.168.1.256"
 	}
 	if len(ann) > 0 {
 		svc.Annotations = ann
@@ -162,9 +175,10 @@ type vWorld struct {
 	// fault injection for the next UpdateStatus
 	fate string
 	// log of the step being executed
-	writes  []map[string]any
-	lastRes string
-	crashes int
+	writes   []map[string]any
+	lastRes  string
+	panicMsg string
+	crashes  int
 	// script
 	steps []json.RawMessage
 	pos   int
@@ -339,7 +353,11 @@ func (w *vWorld) handler(l log.Logger, name string, svc *v1.Service, eps []disco
 		for w.pos < len(w.steps) {
 			var a vAct
 			kit.Must(json.Unmarshal(w.steps[w.pos], &a))
-			if a.Op == "PassEnd" {
+			if a.Op == "PassEnd" || a.Op == "PassBegin" || a.Op == "ReconcileOne" {
+				// PassEnd: the real pass has more handler calls than the scripted one.  PassBegin /
+				// ReconcileOne cannot happen inside a real pass (single worker): the script has left
+				// the real run (e.g. a scripted crash did not happen because nothing was written);
+				// the remaining handler calls of this pass run unscripted.
 				break
 			}
 			raw := w.steps[w.pos]
@@ -404,7 +422,13 @@ func (w *vWorld) runGuarded(f func()) (crashed bool) {
 				w.crash()
 				return
 			}
-			panic(r)
+			// a panic of the code under test: the process would die and be restarted
+			w.panicMsg = fmt.Sprint(r)
+			if len(w.panicMsg) > 200 {
+				w.panicMsg = w.panicMsg[:200]
+			}
+			crashed = true
+			w.crash()
 		}
 	}()
 	f()
@@ -439,7 +463,10 @@ func (w *vWorld) exec(raw json.RawMessage, a vAct, idx int) {
 	case "PoolReconcile":
 		w.poolEvt = false
 		if w.ctlName != w.cfgApi {
-			w.loadPools()
+			if w.runGuarded(w.loadPools) {
+				w.observe(idx, raw, a.Op, a.S, true)
+				return
+			}
 		}
 	case "Crash":
 		if w.inPass {
@@ -466,6 +493,12 @@ func (w *vWorld) exec(raw json.RawMessage, a vAct, idx int) {
 		w.observe(idx, raw, a.Op, a.S, crashed)
 		return
 	case "PassBegin":
+		if w.inPass || !w.reload {
+			// a re-sync pass only starts from a pending reload request (they come from the pool
+			// handler or from a service handler, never from nowhere): a scripted PassBegin that
+			// finds none pending (the script left the real run) is not a legal stimulus
+			return
+		}
 		w.reload = false
 		w.inPass = true
 		w.observe(idx, raw, a.Op, "", false)
@@ -492,23 +525,21 @@ func (w *vWorld) exec(raw json.RawMessage, a vAct, idx int) {
 			w.observe(-1, json.RawMessage(`{"op":"Restarted"}`), "Restarted", "", true)
 			return
 		}
-		// the real pass is over: environment steps scripted inside the pass but not yet reached
-		// (the real pass had fewer handler calls) run now, scripted PassSteps are dropped
+		// the real pass is over: scripted PassSteps that were not reached (the real pass had fewer
+		// handler calls) are dropped up to the scripted PassEnd; anything else is left to the main loop
 		endIdx := -1
 		for w.pos < len(w.steps) {
 			var n vAct
 			kit.Must(json.Unmarshal(w.steps[w.pos], &n))
-			raw2 := w.steps[w.pos]
-			i2 := w.pos
-			w.pos++
 			if n.Op == "PassEnd" {
-				endIdx = i2
+				endIdx = w.pos
+				w.pos++
 				break
 			}
-			if n.Op == "PassStep" {
-				continue
+			if n.Op != "PassStep" {
+				break
 			}
-			w.exec(raw2, n, i2)
+			w.pos++
 		}
 		w.writes = nil
 		w.lastRes = ""
@@ -561,7 +592,8 @@ func (w *vWorld) observe(idx int, raw json.RawMessage, op, s string, crashed boo
 	}
 	o := map[string]any{"w": w.id, "n": w.nobs, "i": idx + 1, "act": raw, "op": op, "s": s, "res": w.lastRes, "crashed": crashed,
 		"crashes": w.crashes, "q": w.quiescent(), "gate": controllers.VerifGate(w.r), "ctl": w.ctlName, "cfgApi": w.cfgApi,
-		"inPass": w.inPass, "reload": w.reload, "poolEvt": w.poolEvt, "svcQ": kit.SortedKeys(w.svcQ)}
+		"inPass": w.inPass, "reload": w.reload, "poolEvt": w.poolEvt, "svcQ": kit.SortedKeys(w.svcQ), "panic": w.panicMsg}
+	w.panicMsg = ""
 	api := map[string]vObsSvc{}
 	for name, svc := range w.api {
 		api[name] = vObsSvc{Spec: w.specs[name], Status: vStatus(svc), Ann: svc.Annotations[AnnotationIPAllocateFromPool]}
@@ -599,8 +631,9 @@ func (w *vWorld) drain() {
 		case w.reload:
 			raw = `{"op":"PassBegin"}`
 		default:
-			// gate still closed with nothing pending: a (spurious) re-sync is always possible
-			raw = `{"op":"PassBegin"}`
+			// nothing pending but not quiescent (gate still closed): genuinely stuck
+			k = 1000
+			continue
 		}
 		var a vAct
 		kit.Must(json.Unmarshal([]byte(raw), &a))
